@@ -17,6 +17,10 @@ for pid in ALL:
         na.append({"property_id": pid, "reason": "check under construction in this round (design in DESIGN.md section 8); not yet claimed"})
         continue
     p = mod.PROP
+    pf = os.path.join(os.path.dirname(os.path.abspath(__file__)), "coq", "theories", (p.props or "none") + ".v")
+    if not getattr(p, "not_applicable", None) and not (os.path.exists(pf) and "Theorem" in open(pf).read()):
+        na.append({"property_id": pid, "reason": "model and correspondence harness exist, property theorems not yet closed; not claimed until they are (DESIGN.md section 8)"})
+        continue
     if getattr(p, "not_applicable", None):
         na.append({"property_id": pid, "reason": p.not_applicable})
         continue
